@@ -2,22 +2,22 @@
 
 # scenario -> TLA+ module, flags, TLC budgets (seconds) per tier
 SCENARIOS = {
-    "book1": dict(module="MC_book1", native=True, frozen=True, quick=300, thorough=1500),
-    "admit": dict(module="MC_admit", native=True, frozen=True, quick=300, thorough=1500),
-    "auth": dict(module="MC_auth", native=True, frozen=True, quick=300, thorough=1500),
-    "conv2": dict(module="MC_conv2", native=True, frozen=True, quick=300, thorough=1500),
-    "cfg": dict(module="MC_cfg", native=True, frozen=True, quick=300, thorough=1500),
-    "envchg": dict(module="MC_envchg", native=True, frozen=True, quick=300, thorough=1500, envsteps=True),
-    "fee": dict(module="MC_fee", native=True, frozen=True, quick=300, thorough=1500),
-    "feearith": dict(module="MC_feearith", native=True, frozen=True, quick=300, thorough=1500),
-    "feebig": dict(module="MC_feebig", native=True, frozen=True, quick=300, thorough=1500),
-    "frac": dict(module="MC_frac", native=True, frozen=True, quick=300, thorough=1500),
-    "inst": dict(module="MC_inst", native=True, frozen=True, quick=300, thorough=1500),
-    "mig": dict(module="MC_mig", native=True, frozen=False, quick=300, thorough=1500, extra={"Family": '"realistic"'}),
-    "migarb": dict(module="MC_mig", native=False, frozen=False, quick=300, thorough=1500, extra={"Family": '"arbitrary"'}),
-    "book2": dict(module="MC_book2", native=True, frozen=True, quick=300, thorough=1500),
+    "book1": dict(module="MC_book1", native=True, frozen=True, quick=300, thorough=3600),
+    "admit": dict(module="MC_admit", native=True, frozen=True, quick=300, thorough=3600),
+    "auth": dict(module="MC_auth", native=True, frozen=True, quick=300, thorough=3600),
+    "conv2": dict(module="MC_conv2", native=True, frozen=True, quick=300, thorough=3600),
+    "cfg": dict(module="MC_cfg", native=True, frozen=True, quick=300, thorough=3600),
+    "envchg": dict(module="MC_envchg", native=True, frozen=True, quick=300, thorough=3600, envsteps=True),
+    "fee": dict(module="MC_fee", native=True, frozen=True, quick=300, thorough=3600),
+    "feearith": dict(module="MC_feearith", native=True, frozen=True, quick=300, thorough=3600),
+    "feebig": dict(module="MC_feebig", native=True, frozen=True, quick=300, thorough=3600),
+    "frac": dict(module="MC_frac", native=True, frozen=True, quick=300, thorough=3600),
+    "inst": dict(module="MC_inst", native=True, frozen=True, quick=300, thorough=3600),
+    "mig": dict(module="MC_mig", native=True, frozen=False, quick=300, thorough=3600, extra={"Family": '"realistic"'}),
+    "migarb": dict(module="MC_mig", native=False, frozen=False, quick=300, thorough=3600, extra={"Family": '"arbitrary"'}),
+    "book2": dict(module="MC_book2", native=True, frozen=True, quick=300, thorough=3600),
     "instbig": dict(module="MC_instbig", kind="instbig", native=True, frozen=True, quick=60, thorough=120),
-    "marker": dict(module="MC_marker", native=True, frozen=True, quick=300, thorough=1500),
+    "marker": dict(module="MC_marker", native=True, frozen=True, quick=300, thorough=3600),
 }
 
 # property -> scenarios per tier (model + replay), driver profiles (profile, histories quick, histories thorough, steps)
